@@ -76,7 +76,7 @@ def make_inputs(ctx):
     progen = [n for (n, _, _) in t['tables']['clean_dt_progen']]
     deps = {c: t['deps'][c]['halo'] for c in t['cols']}
     nrows = 2
-    pairs = [(500.0, 30000.0)] if ctx.quick() else [(500.0, 30000.0), (0.5, 8.0)]
+    pairs = [(500.0, 30000.0), (0.5, 8.0)]
     cats = []
     for (b, z) in pairs:
         cats.append(dict(box=b, zkms=z, nrows=nrows, halo=hs.gen_values(rng, hs.raw_schema(), nrows, npout=2),
@@ -89,6 +89,15 @@ def make_inputs(ctx):
                       'subsamples': dict(subs) if subs else None})
 
     for ci in range(len(cats)):
+        if ctx.quick() and ci > 0:
+            # a second catalog with other unit factors, loaded in the same process after the first one (state kept between
+            # catalogs — caches keyed on too little — shows up here); the quick tier asks it for a reduced set of requests
+            for cleaned in (False, True):
+                add(ci, cleaned, None, 'all')
+                add(ci, cleaned, None, 'DEFAULT_FIELDS')
+            for c in ('x_com', 'r50_com', 'sigmav3d_com', 'sigmavMid_L2com', 'v_L2com', 'N'):
+                add(ci, False, None, [c])
+            continue
         for cleaned in (False, True):
             valid = user + (progen if cleaned else [])
             if ctx.quick():
@@ -273,8 +282,32 @@ def explore(ctx):
         if not isinstance(ld['fields'], str) and len(ld['fields']) >= 2 or has_temporaries(ld, deps):
             nontrivial.add((ld['cat'], ld['cleaned'], subs_key(ld['subsamples']), tuple(ld['fields'])))
     found = judge(cats, loads, res, deps)
+    # history independence: a sample of the same loads issued in another order (last catalog first) in a fresh process must
+    # return bitwise the same columns — values depend on the catalog files and the unit option, not on what was opened before
+    sub = [i for i, ld in enumerate(loads) if ld['subsamples'] is None and
+           (isinstance(ld['fields'], str) or ld['fields'] in (['x_com'], ['sigmav3d_com'], ['r50_com'], ['v_L2com']))]
+    order = sorted(sub, key=lambda i: (-loads[i]['cat'], i))
+    res2 = ctx.run_impl('harness.halo_synth', 'impl_load',
+                        {'root': os.path.join(ctx.scratch, 'cats2'), 'catalogs': cats, 'loads': [loads[i] for i in order]})
+    dist['history_reordered_loads'] = len(order)
+    for i, r2 in zip(order, res2):
+        r1, ld = res[i], loads[i]
+        if r1['class'] != 'ok' or r2['class'] != 'ok':
+            continue
+        for c, arr in r1['cols'].items():
+            if r2['cols'].get(c) != arr or r2['dtypes'].get(c) != r1['dtypes'][c]:
+                found.append({
+                    'key': f'history:{c}',
+                    'what': f'column {c} of the same load differs when another catalog was opened before it in the same process',
+                    'input': {'catalog': cats[ld['cat']], 'other_catalogs': [x for k, x in enumerate(cats) if k != ld['cat']],
+                              'loads': [ld], 'column': c},
+                    'impl_result': {'after_other_catalogs_first': r2['cols'].get(c), 'this_catalog_first': arr},
+                    'expected': 'bitwise identical columns',
+                    'predicate': 'the values loaded for a column depend only on the catalog files and the unit option',
+                    'size': request_len(ld)})
+                break
     n_found = len(found)
-    pri = {'differs': 0, 'fails': 1}
+    pri = {'differs': 0, 'fails': 1, 'history': 2}
     found.sort(key=lambda v: (pri.get(v['key'].split(':')[0], 9), v['size'], v['key']))
     counterexamples = found[:4]
     for v in counterexamples:
@@ -338,6 +371,17 @@ def search(ctx, broken):
 def replay(ctx, rec):
     import os
     inp = rec['input']
+    if rec['key'].startswith('history:'):
+        ld = dict(inp['loads'][0])
+        others = inp.get('other_catalogs') or []
+        alone = ctx.run_impl('harness.halo_synth', 'impl_load', {'root': os.path.join(ctx.scratch, 'replay_a'),
+                                                                   'catalogs': [inp['catalog']], 'loads': [dict(ld, cat=0)]})[0]
+        seq = [dict(ld, cat=k) for k in range(1, len(others) + 1)] + [dict(ld, cat=0)]
+        after = ctx.run_impl('harness.halo_synth', 'impl_load', {'root': os.path.join(ctx.scratch, 'replay_b'),
+                                                                   'catalogs': [inp['catalog']] + others, 'loads': seq})[-1]
+        c = inp['column']
+        bad = alone['class'] == 'ok' and after['class'] == 'ok' and alone['cols'].get(c) != after['cols'].get(c)
+        return bad, {'key': rec['key'], 'alone': (alone.get('cols') or {}).get(c), 'after_other_catalogs': (after.get('cols') or {}).get(c)}
     cats, loads = [inp['catalog']], [dict(ld, cat=0) for ld in inp['loads']]
     res = ctx.run_impl('harness.halo_synth', 'impl_load',
                        {'root': os.path.join(ctx.scratch, 'replay'), 'catalogs': cats, 'loads': loads})
